@@ -125,6 +125,18 @@ def centre_of(tag, d):
     return None
 
 
+def at_gradient_zero(tag, d, pos):
+    """exactly at a sphere centre / on the axis of a centred cylinder, whatever generator family
+    produced the point (there calc_normal is NaN: the documented finding KEY_CENTER)"""
+    if tag == "sc":
+        return all(v == 0.0 for v in pos)
+    if tag == "s":
+        return all(pos[i] == d[i] for i in range(3))
+    if tag in ("cxc", "cyc", "czc"):
+        return all(pos[i] == 0.0 for i in range(3) if i != AXES.index(tag[1]))
+    return False
+
+
 def special_point(rng, tag, d):
     """points that steer CalcSafetyDistance into its branches"""
     k = rng.below(12)
@@ -343,7 +355,8 @@ def surface_oracle(exe, rng, n_surf, n_dir):
         if math.isnan(s) or s < 0:
             fails.append(("safety-negative-or-nan", tag, sline, out[i], {"safety": s}))
         elif s > best + tol + 1e-9 * best:
-            what = KEY_CENTER if (math.isinf(s) and kind == "centre") else "safety-exceeds-distance"
+            what = KEY_CENTER if (math.isinf(s) and (kind == "centre" or at_gradient_zero(tag, d, pos))) \
+                else "safety-exceeds-distance"
             fails.append((what, tag, sline, out[i],
                           {"safety": s, "distance_along_dir": best, "dir": bestdir, "point": pos,
                            "point_kind": kind,
